@@ -1131,6 +1131,16 @@ def check_full_scan(ctx, rule, construct, f, iter_re, what, min_loops=1):
     loops = [c for c in f.calls() if c.callee and c.callee["name"] == "next" and re.search(iter_re, expr_tree(prog, f, c.args[0]))]
     loops = [c for c in loops if any(c.block in f.reachable(start=b) for b in f.succ()[c.block])]
     bad = [x for c in loops for x in loop_early_exits(prog, f, c.block)]
+    # the same scan written as `iter.try_for_each(|x| ..)`: by definition it stops only when the closure returns an error, which has to
+    # be handed on (returned or `?`) for the scan to count
+    tfe = [c for c in f.calls() if c.callee and c.callee["name"] == "try_for_each" and c.callee.get("crate") == "core" and re.search(iter_re, expr_tree(prog, f, c.args[0]))]
+    for c in tfe:
+        d = c.dest
+        handed = (d["l"] == 0 and not d.get("p")) or A.consumed(f, c.block)[0]
+        if handed:
+            loops = loops + [c]
+        else:
+            bad.append((c.block, c.block, "the result of try_for_each is dropped"))
     ctx.inst(rule, construct, len(loops) >= min_loops and not bad, "%s: the scan is left only when exhausted or on an error (no element is skipped by an early exit)" % what,
              ["%s leaves the loop at %s" % (c_, f.bloc(u)) for u, v, c_ in bad] or "%d loop(s)" % len(loops), f.loc(f.raw["span"]))
 
